@@ -148,12 +148,13 @@ PROPS = {
     },
     "C16": {
         "obligation_files": ["Properties/C16.v"],
-        "model_files": ["Model/TPServer.v", "Corr/Transport.v", "Corr/RunT.v"],
+        "model_files": ["Model/TPServer.v", "Model/TPStoreLRU.v", "Corr/Transport.v", "Corr/RunT.v"],
         "rule": "stream tp-hist: the real tp.TP handlers and MemoryStore driven in-process (httptest) over three root tokens with third-party caveats: histories of 3-12 actions from {init with a valid / tampered / foreign / empty ticket and an application that answers immediately, with a poll URL, a user-interactive pair or an error; poll; user-page visit with approve / abort / nothing; direct DischargePoll / AbortPoll / DischargeUserInteractive / AbortUserInteractive} "
                 "with right, crossed (poll secret at the user endpoint and vice versa) and guessed secrets, interleaving several flows; observable = status, body kind, whether the application ran, and for every returned discharge which root token it verifies against (exactly one expected) and the caveats it adds; "
-                "implementation-side oracle: no poll delivers a discharge for a flow the application never approved; non-trivial = at least one flow was created",
+                "implementation-side oracle: no poll delivers a discharge for a flow the application never approved; "
+                "the same service over a MemoryStore of 1..6 keys (case kind KTPLRU, model Model/TPStoreLRU.v): 600 (quick) / 6000 (thorough) histories of 8-50 steps in which eviction happens in ~90 % of the histories, every secret ever issued (also the undisclosed user secret of poll-only flows) keeps being presented; oracles: nothing delivered without approval, nothing delivered twice, every use of a collected flow's secrets refused, never more than cap keys in the cache; a forced interleaving (another flow inserted between the two store calls of one handler) must take the error branches; non-trivial = at least one flow was created",
         "assumptions": ["secrets are 16 random bytes: modelled as fresh atoms, a guess is a value the store never issued",
-                        "LRU eviction of the MemoryStore (capacity 1000 in the harness) is not modelled: an evicted flow behaves as collected (not found)",
+                        "LRU eviction of the MemoryStore is modelled key by key (Model/TPStoreLRU.v: two keys per flow in one recency list, Get refreshes, Add evicts the oldest key); approvals that the discharge refuses (bad caveat list) are not generated against the bounded store",
                         "two polls racing on the same flow may both deliver (outside 'once the answer has been collected'); handlers are compared sequentially"],
     },
     "C13": {
